@@ -215,6 +215,11 @@ def install_mcs_contracts():
         softset = {tuple(c) for c in wcnf.soft}
         soft_keys = [k for k, cl in es['nf_cnf_dict'].items()
                      if k not in ignore and k in conds and all(tuple(c) in softset for c in cl)]
+        if wcnf.soft and not soft_keys:
+            # soft clauses that are not the stored non-falsification clauses of any conditional: this monitor
+            # cannot tell which conditionals they stand for — no verdict
+            LOG.bump('mcs_monitor_not_attached')
+            return
         F = fml.full(len(names))
         fal = {}
         for k in soft_keys:
